@@ -40,6 +40,8 @@ def run(prog, rep):
     rep.rule('R2', 'removal cascade covers exactly the owned schema pairs with the sharing conditions', floor=10)
     rep.rule('R3', 'neighbour lists collected before the element is deleted', floor=4)
     rep.rule('R4', 'service-port peers disconnected before graph-level removal', floor=3)
+    rep.rule('R5', 'unpeer removes ports only after establishing that the two services peer (five-element path between ServicePorts)', floor=2)
+    check_unpeer_shape(prog, rep, 'R5')
 
     # ---- R1 ----
     check_cache_after_removal(prog, rep, 'R1')
@@ -375,6 +377,53 @@ def check_child_removal_keeps_parent(prog, rep, rule):
             rep.violation(rule, loc(iface.module, c if c is not None else rci), 'Interface.remove_child_interface', 'delete_parent=False not passed',
                           'removing the last sub-interface of a dedicated port also deletes the port itself (which belongs to the NIC) and the '
                           'links attached to it; a service port that peered with the parent port is left without a peer')
+
+
+def check_unpeer_shape(prog, rep, rule):
+    """NetworkService.unpeer removes two ports only after it has established that the two services peer: the path between them
+    is exactly service - port - link - port - service (five elements) and both ports are ServicePorts. Any other path (through a
+    node or a third service both are connected to) must be refused - otherwise the ports that connect the services to that
+    node are deleted and the ports facing them are left without a peer. Shared with C07."""
+    from ..normalize import resolve_helper
+    uns = prog.cls('fim.user.network_service:NetworkService')
+    fn0 = uns.methods.get('unpeer')
+    if fn0 is None:
+        raise AnalysisError('NetworkService.unpeer vanished')
+    fn = inline(prog, uns, fn0)
+    env = local_env(fn)
+    paths = [a for a in walk_no_nested(fn) if isinstance(a, ast.Assign) and isinstance(a.value, ast.Call) and call_name(a.value) == 'get_nodes_on_shortest_path']
+    rems = [c for c in walk_no_nested(fn) if isinstance(c, ast.Call) and call_name(c) == 'remove_cp_and_links']
+    if not paths or len(rems) < 2:
+        raise AnalysisError('NetworkService.unpeer: path lookup / port removals not recognised')
+    ptxt = ctext(paths[0].value)
+
+    def mentions_service_port(e, depth=0):
+        if any(isinstance(x, ast.Attribute) and x.attr == 'ServicePort' for x in ast.walk(e)):
+            return True
+        if depth < 2:
+            for c in ast.walk(e):
+                if isinstance(c, ast.Call):
+                    r = resolve_helper(prog, uns, uns.module, c)
+                    if r is not None and any(mentions_service_port(st, depth + 1) for st in r[0].body):
+                        return True
+        return False
+    for r_ in rems:
+        arg = kwarg(r_, 'node_id') or (r_.args[0] if r_.args else None)
+        atxt = ctext(expand(arg, env)) if arg is not None else None
+        _, conds = _enclosing(r_, fn)
+        cjs = [cj for c_ in conds for cj in conjuncts(canon(expand(c_, env)))]
+        len5 = any(isinstance(cj, ast.Compare) and len(cj.ops) == 1 and isinstance(cj.ops[0], ast.Eq) and
+                   any(isinstance(x, ast.Call) and isinstance(x.func, ast.Name) and x.func.id == 'len' and x.args and ctext(x.args[0]) == ptxt
+                       for x in (cj.left, cj.comparators[0])) and
+                   any(isinstance(x, ast.Constant) and x.value == 5 for x in (cj.left, cj.comparators[0])) for cj in cjs)
+        typed = any(atxt is not None and atxt in ctext(cj) and mentions_service_port(cj) for cj in cjs)
+        rep.instance(rule, f'NetworkService.unpeer: {norm(r_, 70)} only on a five-element path: {len5}; removed port verified to be a ServicePort: {typed}')
+        if not len5 or not typed:
+            rep.violation(rule, loc(uns.module, r_), 'NetworkService.unpeer', f'{norm(r_, 70)} without establishing that the services peer',
+                          'unpeer takes whatever shortest path joins the two services and deletes its second and second-to-last element; for '
+                          'services that do not peer but are both connected to one node (or both peer with a third service) these are the '
+                          'ports that connect them to that node / service: the ports are deleted with their links and the ports facing them '
+                          'are left without a peer, instead of "do not peer" being raised')
 
 
 def check_cp_remover(prog, rep, rule):
